@@ -190,8 +190,28 @@ def _run(ctx):
                 gs = _inv.rendered_guards(bb, c.bb)
                 if not any(g.startswith("has_object(") and tr is False for g, tr in gs):
                     doors.append("%s (line %d)" % (F.canon_of(bb), c.ln))
+    update_stores_copies_only(ctx, F)
     ctx.ob("R-WHO", "copy-on-write-single-door", not doors, "objects are copied from the previous revisions into the update by opt_clone_object_to_new_document only", oc.where(),
            what="%s copies an object from prev_documents into new_document without asking whether the update already holds one: the copy from the old revision overwrites the newer in-memory object (the last edit does not win)" % doors)
+
+
+def update_stores_copies_only(ctx, F):
+    """Nothing but a copy of the old object is ever stored under an id of the previous revisions: an object written into the
+    update under an existing id shadows the old one on reload (a fresh, empty object "to write into" throws away what the
+    previous revision holds under that id)."""
+    oc = F.fn("IncrementalDocument::opt_clone_object_to_new_document")
+    fresh = []
+    nset = 0
+    for p_, bb in sorted(F.bodies.items()):
+        if not bb.self_ty.endswith("IncrementalDocument"):
+            continue
+        for c in bb.calls:
+            if c.local and re.search(r"Document::set_object$", c.cname) and "new_document" in bb.oname(c.args[0], 3):
+                nset += 1
+                if "prev_documents" not in bb.sname(c.args[-1], 10):
+                    fresh.append("%s (line %d): %s" % (F.canon_of(bb), c.ln, bb.sname(c.args[-1], 4)[:60]))
+    ctx.ob("R-WHO", "update-stores-copies-only", not fresh, "every set_object on the update (%d) stores a copy of the object the previous revisions hold" % nset, oc.where(),
+           what="an IncrementalDocument method stores something other than a copy of the old object under an id of the previous revisions (%s): after saving and reloading, the update's object shadows the old one and what it held is lost" % fresh)
 
 
 def run(ctx):
